@@ -20,6 +20,7 @@ type lifecycleOpts struct {
 	observer   func(w *world) // called at every quiescent point after the commit oracle
 	maxVirtual time.Duration
 	noOperator bool
+	ghosts     bool // the operator also writes entries of instances that are not simulated (any state, incl. LEFT with tokens; chosen heartbeat ages)
 }
 
 type clientOp struct {
@@ -33,6 +34,9 @@ type clientOp struct {
 // with KV faults, stalls and clock advances, checking the commit oracle (C08) after every step.
 func runLifecycle(s *sim.Sim, o lifecycleOpts) *world {
 	w := newWorld(s)
+	for _, z := range o.zones {
+		w.ghostZones = append(w.ghostZones, z)
+	}
 	n := s.Range(1, o.maxActors, "actors")
 	for i := 0; i < n; i++ {
 		a := w.addActor(i, o.kinds, o.zones)
@@ -53,7 +57,7 @@ func runLifecycle(s *sim.Sim, o lifecycleOpts) *world {
 	}
 	faultsOn := o.faults && s.Chance(0.6, "faults-enabled")
 	w.faultsOn = faultsOn
-	budget := map[string]int{"wipe": 2, "forget": 2, "kv-errors": 4, "restart": 5, "stop": 8}
+	budget := map[string]int{"wipe": 2, "forget": 2, "kv-errors": 4, "restart": 5, "stop": 8, "ghost": 10}
 	spend := func(k string) bool {
 		if budget[k] <= 0 {
 			return false
@@ -211,13 +215,25 @@ func runLifecycle(s *sim.Sim, o lifecycleOpts) *world {
 				}
 			}})
 		}
+		if o.ghosts && budget["ghost"] > 0 {
+			alts = append(alts, alt{"ghost", 2, func() {
+				spend("ghost")
+				w.ghostOperation()
+			}})
+		}
 		// --- time
 		advW := 6
 		if len(names) > 0 {
 			advW = 1 // advancing while tasks are parked stalls them
 		}
 		alts = append(alts, alt{"advance", advW, func() {
-			d := sim.Pick(s, "advance", time.Second, 300*time.Millisecond, 1300*time.Millisecond, 2900*time.Millisecond, 5*time.Second, 15*time.Second, 59*time.Second, 61*time.Second, 2*time.Minute+time.Second)
+			d := sim.Pick(s, "advance", time.Second, 300*time.Millisecond, 1300*time.Millisecond, 2900*time.Millisecond, 5*time.Second, 15*time.Second, 59*time.Second, 61*time.Second, 2*time.Minute+time.Second, -1, -2)
+			if d < 0 {
+				// land exactly on a whole second (heartbeat timestamps are whole seconds: ages equal to the
+				// timeout, one second less, one second more)
+				d = time.Second - (s.Elapsed()+1)%time.Second + time.Duration(-d-1)*59*time.Second
+				s.Probe("clock-aligned-to-second")
+			}
 			if len(s.Parked()) > 0 {
 				s.Fault("stall")
 				for _, nm := range s.Parked() {
@@ -491,6 +507,83 @@ func (w *world) checkHeartbeats() {
 				s.Probe("heartbeat-checked-while-leaving")
 			}
 			s.Fail("heartbeat-missed", "", "%s (heartbeat %v, %s) has not written for %v although the store accepts writes and it was not stalled", a.id, a.heartbeat, what, now-last)
+		}
+	}
+}
+
+// ghostOperation lets the operator add, change or remove the entry of an instance that is not
+// simulated: any state (including LEFT with tokens), chosen heartbeat age around the timeout,
+// read-only flag, tokens from the tiny alphabet that are free at that moment.
+func (w *world) ghostOperation() {
+	s := w.s
+	d := w.desc()
+	id := "g" + itoa(uint64(s.Choose(4, "ghost-id")))
+	zones := w.ghostZones
+	if len(zones) == 0 {
+		zones = []string{""}
+	}
+	zone := zones[s.Choose(len(zones), "ghost-zone")]
+	kind := s.Choose(4, "ghost-op") // 0,1 add/replace, 2 refresh state/heartbeat, 3 remove
+	now := time.Now()
+	ages := []time.Duration{0, 59 * time.Second, 60 * time.Second, 61 * time.Second, 10 * time.Minute, 30 * time.Second}
+	age := ages[s.Choose(len(ages), "ghost-age")]
+	state := []ring.InstanceState{ring.ACTIVE, ring.LEFT, ring.LEAVING, ring.JOINING, ring.PENDING}[s.Choose(5, "ghost-state")]
+	taken := map[uint32]bool{}
+	for gid, e := range d.Ingesters {
+		if gid == id {
+			continue
+		}
+		for _, t := range e.Tokens {
+			taken[t] = true
+		}
+	}
+	var tokens []uint32
+	nTok := s.Choose(4, "ghost-tokens")
+	for _, i := range s.Perm(len(tinyAlphabet), "ghost-token-order") {
+		if len(tokens) == nTok {
+			break
+		}
+		if !taken[tinyAlphabet[i]] {
+			tokens = append(tokens, tinyAlphabet[i])
+		}
+	}
+	sortU32(tokens)
+	readOnly := s.Chance(0.2, "ghost-read-only")
+	s.Fault("operator-ghost-entry")
+	s.Go("operator-ghost", func() {
+		_ = w.opKV.CAS(context.Background(), ringKey, func(in interface{}) (interface{}, bool, error) {
+			d := ring.GetOrCreateRingDesc(in)
+			if d.Ingesters == nil {
+				d.Ingesters = map[string]ring.InstanceDesc{}
+			}
+			e, ok := d.Ingesters[id]
+			switch {
+			case kind == 3:
+				if !ok {
+					return nil, false, nil
+				}
+				d.RemoveIngester(id)
+			case kind == 2 && ok:
+				e.State = state
+				e.Timestamp = now.Add(-age).Unix()
+				d.Ingesters[id] = e
+			default:
+				e = ring.InstanceDesc{Id: id, Addr: id + ":1", Zone: zone, State: state, Tokens: tokens,
+					Timestamp: now.Add(-age).Unix(), RegisteredTimestamp: now.Add(-age - time.Minute).Unix()}
+				if readOnly {
+					e.ReadOnly, e.ReadOnlyUpdatedTimestamp = true, now.Add(-age/2).Unix()
+				}
+				d.Ingesters[id] = e
+			}
+			return d, true, nil
+		})
+	})
+}
+
+func sortU32(a []uint32) {
+	for i := 1; i < len(a); i++ {
+		for j := i; j > 0 && a[j-1] > a[j]; j-- {
+			a[j-1], a[j] = a[j], a[j-1]
 		}
 	}
 }
